@@ -49,6 +49,12 @@ type Op struct {
 	// variable, not a copy); "reuse" = the previous operation's slice. All operations of one group
 	// have the same OLGiven/OL/Stop/Strip/Exact/Opts.
 	Share string `json:"share,omitempty"`
+	// FileOf > 0: this from-file operation re-uses the path of operation FileOf-1 of the session
+	// (also a from-file operation): the file is rewritten with this operation's commands before the
+	// call. FileSameStat: the new content has the same byte length and the file's old modification
+	// time is restored (cp -p / rsync -t / same-tick rewrite); otherwise the rewrite is an ordinary one.
+	FileOf       int  `json:"file_of,omitempty"`
+	FileSameStat bool `json:"file_same_stat,omitempty"`
 }
 
 // longLineMax bounds the ordinary long lines below bufio.MaxScanTokenSize (65536). Lines of
@@ -738,11 +744,11 @@ func buildOp(r *rand.Rand, s *Session, o Op, pattern string, p []string, unliste
 	return fillCmds(r, s, o, pattern, p, unlisted)
 }
 
-// followUps makes, for about one operation in eight, the operation just appended the first of a
+// followUps makes, for about one operation in ten, the operation just appended the first of a
 // group: 1-2 extra operations (other command lists, any API of the driver) follow that are called
 // with the very same option slice variable. Extra operations; the enumeration is untouched.
 func followUps(r *rand.Rand, s *Session, p []string, unlisted []string) int {
-	if r.Intn(8) != 0 {
+	if r.Intn(10) != 0 {
 		return 0
 	}
 	first := &s.Ops[len(s.Ops)-1]
@@ -773,6 +779,78 @@ func followUps(r *rand.Rand, s *Session, p []string, unlisted []string) int {
 			pat[j] = "nhhd"[r.Intn(4)]
 		}
 		s.Ops = append(s.Ops, buildOp(r, s, o, string(pat), p, unlisted))
+		exchanges += n
+	}
+	return exchanges
+}
+
+func fileBytes(o *Op) int {
+	n := 0
+	for _, c := range o.Cmds {
+		n += len(c.Text) + 1
+	}
+	return n
+}
+
+// padCmd lengthens one command text by k bytes (in front of its reserved last byte).
+func padCmd(r *rand.Rand, o *Op, k int) {
+	i := r.Intn(len(o.Cmds))
+	t := o.Cmds[i].Text
+	o.Cmds[i].Text = t[:len(t)-1] + randStr(r, cmdAlpha, k) + t[len(t)-1:]
+}
+
+// fileReuse makes, for about one from-file operation in ten, 1-2 extra from-file operations follow
+// that are given the SAME path: the file is rewritten in between with the new operation's commands;
+// in three of four cases with content of the same byte length and the old modification time
+// restored (the shorter file is padded), otherwise (control) as an ordinary rewrite.
+func fileReuse(r *rand.Rand, s *Session, p []string, unlisted []string) int {
+	ia := len(s.Ops) - 1
+	if !strings.HasSuffix(s.Ops[ia].API, "file") || s.Ops[ia].Long != "" || r.Intn(10) != 0 {
+		return 0
+	}
+	doors := []string{"cmdsfile"}
+	if s.Driver == "network" {
+		doors = []string{"cmdsfile", "cfgsfile"}
+	}
+	exchanges := 0
+	sameStat := r.Intn(4) != 0 // one decision per group: every rewrite keeps length and mtime, or none does
+	for k, cnt := 0, 1+r.Intn(2); k < cnt; k++ {
+		a := &s.Ops[ia]
+		o := Op{API: doors[r.Intn(len(doors))], Stop: r.Intn(2) == 0, OLGiven: a.OLGiven, OL: append([]string{}, a.OL...), OLKind: a.OLKind,
+			FileOf: ia + 1, FileSameStat: sameStat}
+		n := len(a.Cmds)
+		if n < 2 {
+			n = 2 + r.Intn(3)
+		}
+		pat := make([]byte, n)
+		for j := range pat {
+			pat[j] = "nhhd"[r.Intn(4)]
+		}
+		b := buildOp(r, s, o, string(pat), p, unlisted)
+		if b.Long != "" {
+			// keep the group uniform: no stretched line in a re-use group
+			b = buildOp(r, s, o, strings.Repeat("n", n), p, unlisted)
+			if b.Long != "" {
+				break
+			}
+		}
+		if b.FileSameStat {
+			// every file of the group has the length of the longest: pad the shorter side (the
+			// earlier operations of the group are still only descriptors)
+			la, lb := fileBytes(a), fileBytes(&b)
+			switch {
+			case lb < la:
+				padCmd(r, &b, la-lb)
+			case la < lb:
+				padCmd(r, a, lb-la)
+				for j := ia + 1; j < len(s.Ops); j++ {
+					if s.Ops[j].FileOf == ia+1 && s.Ops[j].FileSameStat {
+						padCmd(r, &s.Ops[j], lb-la)
+					}
+				}
+			}
+		}
+		s.Ops = append(s.Ops, b)
 		exchanges += n
 	}
 	return exchanges
@@ -956,6 +1034,7 @@ func Gen(tier string, seed int64) []mon.Case {
 					o := Op{API: t.api, Stop: t.stop}
 					setOL(r, &o, dl, t.olKind, p)
 					s.Ops = append(s.Ops, buildOp(r, &s, o, t.pattern, p[:6], p[6:]))
+					budget -= fileReuse(r, &s, p[:6], p[6:])
 					budget -= followUps(r, &s, p[:6], p[6:])
 					budget -= len(t.pattern)
 				}
@@ -1002,12 +1081,14 @@ func Gen(tier string, seed int64) []mon.Case {
 				}
 			}
 			s.Ops = append(s.Ops, buildOp(r, &s, o, string(pat), listed, unlisted))
+			fileReuse(r, &s, listed, unlisted)
 			followUps(r, &s, listed, unlisted)
 		}
 		add(s)
 	}
 	// command files with many short lines: larger than the loader's initial 4 KiB buffer, a few larger
 	// than 64 KiB (every line short). One from-file operation per session, fast transport.
+	heavyStart := len(cases)
 	nMany, nHuge := 6, 2
 	if tier == "thorough" {
 		nMany, nHuge = 30, 6
@@ -1051,5 +1132,71 @@ func Gen(tier string, seed int64) []mon.Case {
 		s.Ops = append(s.Ops, buildOp(r, &s, o, string(pat), listed, unlisted))
 		add(s)
 	}
-	return cases
+	// long pushes (more than 100 lines) with the first rejected line at and around multiples of 100
+	rounds := 1
+	if tier == "thorough" {
+		rounds = 4
+	}
+	type lp struct {
+		api  string
+		pos  int // 1-based position of the first failing line; 0 = random
+		stop bool
+	}
+	var lps []lp
+	for k := 0; k < rounds; k++ {
+		for _, api := range []string{"cfgs", "cfg", "cfgsfile"} {
+			for _, pos := range []int{99, 100, 101, 199, 200, 201, 0, 0} {
+				lps = append(lps, lp{api, pos, true})
+			}
+			lps = append(lps, lp{api, 300, true}, lp{api, 100, false})
+		}
+		lps = append(lps, lp{"cmds", 100, true}, lp{"cmdsfile", 200, true}, lp{"cmds", 0, true})
+	}
+	r.Shuffle(len(lps), func(i, j int) { lps[i], lps[j] = lps[j], lps[i] })
+	for start := 0; start < len(lps); start += 3 {
+		s := newSession(r, "longpush", "network")
+		s.Seg = devsim.Seg{Mode: []string{"whole", "mix"}[r.Intn(2)], Size: 16, Seed: r.Int63()}
+		s.ReadSize, s.ReadDelay = 8192, 50
+		p := drawPool(r, s.Host, 9)
+		listed, unlisted := p[:8], p[8:]
+		s.DLKind = "random"
+		s.DLGiven = true
+		s.DL = permute(r, listed...)[:1+r.Intn(2)]
+		end := start + 3
+		if end > len(lps) {
+			end = len(lps)
+		}
+		for _, l := range lps[start:end] {
+			o := Op{API: l.api, Stop: l.stop, OL: []string{}, OLKind: "random"}
+			if r.Intn(3) == 0 {
+				o.OLGiven = true
+				o.OL = permute(r, listed...)[:1+r.Intn(2)]
+			}
+			pos := l.pos
+			if pos == 0 {
+				pos = 2 + r.Intn(330)
+			}
+			lo := pos + 3
+			if lo < 101 {
+				lo = 101
+			}
+			n := lo + r.Intn(351-lo)
+			pat := make([]byte, n)
+			for j := range pat {
+				switch {
+				case j < pos-1:
+					pat[j] = "nnnnnnnnnd"[r.Intn(10)]
+				case j == pos-1:
+					pat[j] = 'h'
+				default:
+					pat[j] = "nnnnnnnnhd"[r.Intn(10)]
+				}
+			}
+			s.Ops = append(s.Ops, buildOp(r, &s, o, string(pat), listed, unlisted))
+		}
+		add(s)
+	}
+	// the long single-operation sessions go to the front of the list so that they start first
+	// (ids unchanged; the list is still a pure function of tier and seed)
+	return append(append([]mon.Case{}, cases[heavyStart:]...), cases[:heavyStart]...)
 }
